@@ -184,6 +184,12 @@ Wire ==
                                 IN IF overdue # {} /\ trackedBefore + nsyn - Cardinality(overdue) < cfg.max_total /\ apBefore + nsyn - Cardinality(overdue) < cfg.max_active
                                    THEN Flag("C17", "refused-with-serverfull-while-a-silent-connection-was-overdue-for-its-timeout") ELSE {}
                            ELSE {})
+                     \* "disconnect attempts end ... after their retry budget (10 resends, 2 s apart)": one closing attempt puts at most
+                     \* eleven DISCONNECT frames on the wire (a second timer chain counting down the same attempt shows here first)
+                     \cup (IF Cur.type = "DISC" /\ st[k] = "conn" /\ discCount[k] >= 11
+                           THEN Flag("C10", "more-disconnect-transmissions-than-the-retry-budget") ELSE {})
+                     \cup (IF ~fromS /\ Cur.type = "SYN" /\ p \in {"c0", "c1", "c2", "c3"} /\ synCount[p] >= 11
+                           THEN Flag("C10", "more-handshake-transmissions-than-the-retry-budget") ELSE {})
                      \* a client confirms - by an ACK carrying the server's nonce - only a SYN-ACK that reached it and echoes the
                      \* nonce of its own SYN: anything else lets a forged or stale handshake create a connection at the server
                      \cup (IF ~fromS /\ Cur.type = "ACK" /\ p \in {"c0", "c1", "c2", "c3"} /\ cNonce[p] # NoNonce
